@@ -280,6 +280,13 @@ func (s *sim) corrupt(p *pkgState, st Step) {
 			cur = []byte(genHeader + "package " + p.name + "\n\nimport (\n\t\"example.com/lib\"\n)\n\nfunc InitBar() Bar {\n\tfoo := ProvideFooOld()\n\tbar := ProvideBar(foo)\n\treturn bar\n}\n")
 		}
 		data = TweakOutput(cur)
+	case "crlf":
+		// the current output as a checkout with autocrlf would leave it
+		cur := s.outputs(p.name)[name]
+		if len(cur) == 0 || !inPremise(cur) {
+			cur = []byte(genHeader + "package " + p.name + "\n\nfunc InitBar() Bar {\n\tfoo := ProvideFooOld()\n\tbar := ProvideBar(foo)\n\treturn bar\n}\n")
+		}
+		data = []byte(strings.ReplaceAll(strings.ReplaceAll(string(cur), "\r\n", "\n"), "\n", "\r\n"))
 	case "tail":
 		// the current output followed by a left-over tail (a file that merely STARTS with what gen would write)
 		cur := s.outputs(p.name)[name]
@@ -774,6 +781,21 @@ func (s *sim) cmd(idx int, st Step) string {
 					}
 				}
 			}
+			// ---------------- F6 (C17): diff of ONE package right after a gen over several must report no difference
+			if !expectFail && res.Exit == 0 && len(okT) >= 2 && st.Prefix == "" && (s.e.Prop == "C17" || s.e.Prop == "all") {
+				n := okT[idx%len(okT)]
+				dst := Step{Op: "cmd", Cmd: "diff", Patterns: []string{"./" + n}, Header: st.Header, Tags: st.Tags}
+				dres := s.w.Exec(e.B.WireSim, s.w.AppDir, &world.Plan{Seed: 9, Iter: "asc", Clock: 1, Pid: 2, Host: "d"}, s.scratch, nil, s.argv(dst, s.w)...)
+				e.Stats.Commands.Add("followup:diff-one", 1)
+				if dres.TimedOut {
+					return "watchdog: follow-up diff timed out"
+				}
+				if dres.Exit != 0 {
+					s.violate("C17", "F6", "diff-one-package-after-gen-of-several/reports-difference", "exit 0: the file gen just wrote is what gen would write", fmt.Sprintf("exit %d: %s", dres.Exit, firstLines(s.w.Scrub(dres.Stdout+dres.Stderr), 4)), fmt.Sprintf("diff ./%s after %s", n, st))
+				} else {
+					e.Stats.Counts.Add("diff_one_after_gen_many_clean", 1)
+				}
+			}
 			// ---------------- R2 / R3 follow-ups (C18)
 			if !expectFail && res.Exit == 0 && (s.e.Prop == "C18" || s.e.Prop == "all") {
 				if infra := s.followUps(idx, st, okT, outName); infra != "" {
@@ -915,6 +937,8 @@ func modeBefore(data []byte) string {
 		return "empty"
 	case bytes.Contains(data, []byte("\tzz1 \"")) || bytes.Contains(data, []byte("import zz1 ")):
 		return "tweaked"
+	case bytes.Contains(data, []byte("\r\n")):
+		return "crlf"
 	case bytes.Contains(data, []byte("left-over tail of an older")):
 		return "tail"
 	case bytes.Contains(data, []byte("NOTE(bob)")):
